@@ -12,6 +12,7 @@ func init() { register("C15", runC15) }
 // has its own check.
 func runC15(r *Run) {
 	r.quiet = true
+	settleFast = true
 	ids := make([]string, 0, len(props))
 	for id := range props {
 		if id != "C15" && id != "C08" && id != "C12" && id != "C19" {
